@@ -99,8 +99,8 @@ def r3_scanners(ctx, rep):
     w, n = fsmx.compare_acceptors(impl, fsmx.ref_unterminated())
     rep.ob("_contains_unterminated_string == 'ends inside a literal'", w is None,
            f"equivalent for strings of every length ({n} product states)" if w is None else
-           f"after reading `{w}` the function answers {not (w.count(chr(39)) % 2 == 1 or w.count(chr(34)) % 2 == 1)!s:.5} "
-           f"but the string {'is' if fsmx_ref_in(w) else 'is not'} inside a literal ({n} product states explored): "
+           f"after reading `{w}` the function answers {impl_answer(impl, w)} "
+           f"but the string {'is' if fsmx_ref_in(w or '') else 'is not'} inside a literal ({n} product states explored): "
            f"comment stripping and doc recognition are switched off (or left on) for the next continued line",
            py.nloc(fn), witness=w)
     fq = py.func("utils.quote_split")
@@ -114,6 +114,13 @@ def r3_scanners(ctx, rep):
     t = ast.unparse(nx)
     ok = "in_quote = _contains_unterminated_string(linebuffer)" in t and "quote_split(';', linebuffer)" in t
     rep.ob("reader uses the scanners on the joined buffer", ok, "", py.nloc(nx))
+
+
+def impl_answer(impl, w) -> bool:
+    s, step, acc, _ = impl
+    for c in (w or ""):
+        s = step(s, c)
+    return acc(s)
 
 
 def fsmx_ref_in(w: str) -> bool:
